@@ -117,6 +117,19 @@ func (p *Parser) Parse(source string) (Node, error) {
 		return nil, fmt.Errorf("parsing error: %w", err)
 	}
 
+	// parseOuterTemplate also returns at a tag that closes a block (endif, else,
+	// endfor, ...) so that the tag's own parser can go on. At the top level no
+	// block is open: such a tag is stray, and everything behind it would be
+	// dropped without a word
+	if p.tokenIndex < len(p.tokens) && p.tokens[p.tokenIndex].Type != TOKEN_EOF {
+		stray := p.tokens[p.tokenIndex]
+		name := ""
+		if p.tokenIndex+1 < len(p.tokens) {
+			name = p.tokens[p.tokenIndex+1].Value
+		}
+		return nil, fmt.Errorf("parsing error: unexpected '%s' tag without an open block at line %d", name, stray.Line)
+	}
+
 	// Let the macros of this template find each other
 	var macros map[string]Node
 	for _, node := range nodes {
